@@ -8,6 +8,7 @@ import Iavl.Model.ChangeSet
 import Iavl.Model.Store
 import Iavl.Model.KV
 import Iavl.Model.ReadCost
+import Iavl.Model.Ics23
 /-
   The executable face of the model: a line-protocol interpreter that answers every operation of a
   history with exactly the definitions the theorems are about (`VTree.step`, `hashNode`, `mkProof`,
@@ -380,10 +381,44 @@ def stepOp (x : XState) (op : Op Bytes Bytes) : XState × String :=
 
 def parseIv (s : String) : Option Nat := if s == "-" then none else s.toNat?
 
+/-! ### the ics23 verifier on externally supplied proofs (C03) -/
+def parseOps : Nat → List String → Option (List InnerOp × List String)
+  | 0, toks => some ([], toks)
+  | n + 1, p :: s :: toks =>
+    match dec p, dec s, parseOps n toks with
+    | some (some pb), some (some sb), some (ops, rest) => some (⟨pb, sb⟩ :: ops, rest)
+    | _, _, _ => none
+  | _, _ => none
+
+/-- `<key> <value> <leafprefix> <n> <pfx sfx>*` or `-` -/
+def parseExist : List String → Option (Option ExistProof × List String)
+  | "-" :: rest => some (none, rest)
+  | k :: v :: lp :: n :: rest =>
+    match dec k, dec v, dec lp, parseOps n.toNat! rest with
+    | some (some kb), some (some vb), some (some lb), some (ops, rest') => some (some ⟨kb, vb, lb, ops⟩, rest')
+    | _, _, _, _ => none
+  | _ => none
+
+def icsVerify : List String → String
+  | "vex" :: root :: key :: value :: rest =>
+    (match dec root, dec key, dec value, parseExist rest with
+     | some (some r), some (some k), some (some v), some (some p, _) => b2s (verifyExist H r p k v)
+     | _, _, _, _ => "bad")
+  | "vnon" :: root :: key :: "L" :: rest =>
+    (match dec root, dec key, parseExist rest with
+     | some (some r), some (some k), some (l, "R" :: rest') =>
+       (match parseExist rest' with
+        | some (rr, _) => b2s (verifyNonExist H r ⟨k, l, rr⟩ k)
+        | none => "bad")
+     | _, _, _ => "bad")
+  | _ => "bad"
+
 partial def exec (x : XState) (args : List String) : XState × String :=
   match args with
   | "new" :: _ :: "legacy" :: _ => ({ init with opened := true }, "ok")   -- the legacy library starts on an empty store
   | "new" :: _ => (init, "ok")
+  | "vex" :: _ => (x, icsVerify args)
+  | "vnon" :: _ => (x, icsVerify args)
   | ["adopt"] =>
     -- the current library opens the database the legacy library wrote: a fresh tree object, Load()
     let (x', r) := stepOp x (.reopen x.cfgIv 0)
